@@ -74,14 +74,17 @@ static Value CwDecode(const std::string& s) { size_t p = 0; return CwDec(s, p); 
 
 static std::string HexOrEmpty(const std::string& s) { return s.empty() ? "" : HexEnc(s); }
 
-// numbers read back: fixed notation with six decimals (what the writer itself produces), trailing zeros stripped.
-// For a value that came out of the six-decimal text this reproduces that text exactly.
+// numbers read back: the shortest fixed notation with at least six decimals that reads back as the same double
+// (computed here independently of ConfigWriter), trailing zeros stripped
 static std::string CwNum(double d)
 {
 	if (d != d) return "dnan;";
 	if (d - d != 0) return d > 0 ? "dinf;" : "d-inf;";
-	static char buf[2000];
-	snprintf(buf, sizeof(buf), "%.6f", d);
+	static char buf[2400];
+	for (int p = 6; p <= 1100; p++) {
+		snprintf(buf, sizeof(buf), "%.*f", p, d);
+		if (strtod(buf, nullptr) == d) break;
+	}
 	std::string r = buf;
 	while (!r.empty() && r.back() == '0') r.pop_back();
 	if (!r.empty() && r.back() == '.') r.pop_back();
